@@ -1,0 +1,81 @@
+//go:build verif
+
+// Contracts for the deductive verifier in /verif (comment-only; compiled only with -tags verif).
+package keeper
+
+//@ family feeds  key types.GetFeedKey value types.Feed prefix types.GetFeedPrefixKey
+//@ family byCtx  key types.GetReqCtxIDKey value str
+//@ family values key types.GetFeedValueKey value types.FeedValue prefix types.GetFeedValuePrefixKey
+//@ family fstate key types.GetFeedStateKey value str prefix types.GetFeedStatePrefixKey
+
+//@ define RUNNING = 0
+//@ define PAUSED = 1
+// the feed is queued under state a and not under state b
+//@ define mirrors(n, a, b) = has(fstate, n, a) && !has(fstate, n, b)
+
+//@ func Keeper.dequeueAndEnqueue
+//@   property C17
+//@   modifies fstate
+//@   ensures moved: fstate == set(del(old(fstate), feedName, dequeueState), feedName, enqueueState, feedName)
+//@ end
+
+// Only the feed's creator can start, pause or edit it; the state queue follows the request context (C17).
+//@ func Keeper.StartFeed
+//@   property C17
+//@   returns err
+//@   modifies fstate, bal, supply
+//@   ensures creator_only: err == nil ==> has(feeds, msg.FeedName) && msg.Creator == get(feeds, msg.FeedName).Creator
+//@   ensures not_running:  err == nil ==> foreign("GetRequestContext", 1, 0).State != RUNNING
+//@   ensures queued:       err == nil ==> fstate == set(del(old(fstate), msg.FeedName, PAUSED), msg.FeedName, RUNNING, msg.FeedName)
+//@   ensures rejected:     err != nil ==> fstate == old(fstate)
+//@ end
+
+//@ func Keeper.PauseFeed
+//@   property C17
+//@   returns err
+//@   modifies fstate, bal, supply
+//@   ensures creator_only: err == nil ==> has(feeds, msg.FeedName) && msg.Creator == get(feeds, msg.FeedName).Creator
+//@   ensures was_running:  err == nil ==> foreign("GetRequestContext", 1, 0).State == RUNNING
+//@   ensures queued:       err == nil ==> fstate == set(del(old(fstate), msg.FeedName, RUNNING), msg.FeedName, PAUSED, msg.FeedName)
+//@   ensures rejected:     err != nil ==> fstate == old(fstate)
+//@ end
+
+// The service module reports a state change of the request context: the feed moves to the queue of the new state.
+//@ func Keeper.HandlerStateChanged
+//@   property C17
+//@   requires has(byCtx, requestContextID) && has(feeds, get(byCtx, requestContextID))
+//@   let name = get(feeds, get(byCtx, requestContextID)).FeedName
+//@   modifies fstate, bal, supply
+//@   ensures mirrors_paused:  foreign("GetRequestContext", 1, 1) && foreign("GetRequestContext", 1, 0).State == PAUSED ==> mirrors(name, PAUSED, RUNNING)
+//@   ensures mirrors_running: foreign("GetRequestContext", 1, 1) && foreign("GetRequestContext", 1, 0).State == RUNNING ==> mirrors(name, RUNNING, PAUSED)
+//@ end
+
+// History helpers (iterator loops). Only their frame is specified here; the history bound is not claimed.
+//@ func Keeper.getFeedValuesCnt
+//@   property C17
+//@   returns i
+//@   invariant #1 t: true
+//@ end
+//@ func Keeper.deleteOldestFeedValue
+//@   property C17
+//@   modifies values
+//@   invariant #1 t: true
+//@ end
+
+//@ func Keeper.EditFeed
+//@   property C17
+//@   returns err
+//@   modifies feeds, byCtx, values, bal, supply
+//@   invariant #1 t: true
+//@   ensures creator_only: err == nil ==> old(has(feeds, msg.FeedName)) && msg.Creator == old(get(feeds, msg.FeedName)).Creator
+//@   ensures identity: err == nil ==> get(feeds, msg.FeedName).Creator == old(get(feeds, msg.FeedName)).Creator
+//@                               && get(feeds, msg.FeedName).RequestContextID == old(get(feeds, msg.FeedName)).RequestContextID
+//@                               && get(feeds, msg.FeedName).AggregateFunc == old(get(feeds, msg.FeedName)).AggregateFunc
+//@ end
+
+// A completed batch stores one value for the feed, stamped with the block time, under the batch counter (C17).
+//@ func Keeper.SetFeedValue
+//@   property C17
+//@   modifies values
+//@   ensures stored: has(values, feedName, batchCounter) && get(values, feedName, batchCounter) == value
+//@ end
